@@ -372,47 +372,5 @@ decode_tags!(c10_decode_total_unknown255, [255]);
 
 // (probed, not registered: decode_snapshot on files of 0, 3 and 10 bytes exhausts 12 GB although every read
 //  folds to a constant; the framing of the snapshot file is therefore OUTSIDE the claim - only decode_value is in.)
-use crate::common::{empty_format, fixed_random_state};
 
-// ---------------------------------------------------------------------------------------
-// K1 for composite values (concrete shape, symbolic content)
-// ---------------------------------------------------------------------------------------
-use smol_str::SmolStr;
-
-fn ascii3() -> ([u8; 3], usize) {
-    let b: [u8; 3] = kani::any();
-    let n: usize = kani::any();
-    kani::assume(n <= 3 && b[0] < 0x80 && b[1] < 0x80 && b[2] < 0x80);
-    (b, n)
-}
-
-// @verif prop=C10 kernel=K1 tiers=quick,thorough timeout=2400 unwind=1 stubbing=yes mem=16 loops=run_utf8_validation:5,from_utf8:5,memcmp:6,compare_bytes:6,c10:5,new:26,new_inline:26,Iterator:5,to_vec:5,clone:5,extend:5
-// @verif what=retain codec round trip for STRING and WSTRING values of 0..=3 ASCII bytes and for ENUM values (type name, variant name, numeric value): decode(encode(v)) equals v and consumes exactly the encoded bytes
-// @verif fns=retain::{encode_value,decode_value,encode_string,RetainReader::read_string}
-// @verif bound=strings of 0..=3 symbolic ASCII bytes; enum names of 1 and 2 concrete characters, numeric value any i64
-// @verif stub=alloc::vec::Vec::<T>::with_capacity -> allocation monitor; alloc::fmt::format -> empty String
-#[kani::proof]
-#[kani::stub(std::vec::Vec::with_capacity, monitored_with_capacity)]
-#[kani::stub(alloc::fmt::format, empty_format)]
-fn c10_roundtrip_strings_enum() {
-    let k: u8 = kani::any();
-    match k % 3 {
-        0 => {
-            let (b, n) = ascii3();
-            let s = unsafe { core::str::from_utf8_unchecked(&b[..n]) };
-            roundtrip!(Value::String(SmolStr::new(s)), |back| matches!(back, Value::String(y) if y.as_str().as_bytes() == &b[..n]))
-        }
-        1 => {
-            let (b, n) = ascii3();
-            let s = unsafe { core::str::from_utf8_unchecked(&b[..n]) };
-            roundtrip!(Value::WString(s.to_string()), |back| matches!(back, Value::WString(y) if y.as_bytes() == &b[..n]))
-        }
-        _ => {
-            let x: i64 = kani::any();
-            roundtrip!(Value::Enum(EnumValue { type_name: SmolStr::new_inline("T"), variant_name: SmolStr::new_inline("Va"), numeric_value: x }),
-                |back| matches!(back, Value::Enum(e) if e.numeric_value == x && e.type_name.as_str() == "T" && e.variant_name.as_str() == "Va"))
-        }
-    }
-    kani::cover!(k % 3 == 0);
-    kani::cover!(k % 3 == 2);
-}
+// (probed, not registered: round trip of STRING/WSTRING/ENUM values - out of memory at 16 GB.)
